@@ -1,4 +1,6 @@
 import BSEModel.Refs
+import BSEModel.RefRender
+import BSEProofs.Lemmas.RefRenderSpec
 /-! # C09 — references cover exactly the data that was returned -/
 namespace BSE.Props.C09
 open BSE BSE.Refs
@@ -217,5 +219,43 @@ theorem processNotes_mentions (notes : String) (keys : List String) (refText : S
   rw [mem_sortKeys, List.mem_filter]
 
 example : (compactGroups [("1", "a"), ("2", "b"), ("3", "a")]) = [("a", ["1", "3"]), ("b", ["2"])] := by decide +kernel
+
+/-! ## the three renderers: every stored field value is in the text -/
+
+section Renderers
+open BSE.RefRender
+
+/-- **BibTeX rendering is complete**: the key and every stored value (each author, each editor, title, journal, volume,
+pages, year, doi, …, any further field) of the entry occur in `write_bib(key, entry)` -/
+theorem bib_renders_every_field (key : Str) (e : Entry) :
+    Sub key (writeBib key e) ∧ ∀ kv ∈ e.fields, WellTyped kv → ∀ x ∈ valStrings kv.2, Sub x (writeBib key e) :=
+  writeBib_complete key e
+
+/-- **RIS rendering is complete** -/
+theorem ris_renders_every_field (key : Str) (e : Entry) :
+    Sub key (writeRis key e) ∧ ∀ kv ∈ e.fields, WellTyped kv → ∀ x ∈ valStrings kv.2, Sub x (writeRis key e) :=
+  writeTagged_complete risTags risType key e
+
+/-- **EndNote rendering is complete** -/
+theorem endnote_renders_every_field (key : Str) (e : Entry) :
+    Sub key (writeEndnote key e) ∧ ∀ kv ∈ e.fields, WellTyped kv → ∀ x ∈ valStrings kv.2, Sub x (writeEndnote key e) :=
+  writeTagged_complete endnoteTags endnoteType key e
+
+/-- non-vacuity: an entry with authors, editors (which RIS and EndNote file under the generic tag) and a doi -/
+def demoEntry : Entry :=
+  { etype := "incollection".toList,
+    fields := [("authors".toList, .list ["Dunning, T. H.".toList, "Hay, P. J.".toList]), ("title".toList, .str "Gaussian Basis Sets".toList),
+               ("editors".toList, .list ["Schaefer, H. F.".toList]), ("year".toList, .str "1977".toList), ("doi".toList, .str "10.1007/x".toList)] }
+
+example : String.ofList (writeEndnote "dunning1977b".toList demoEntry)
+    = "#incollection dunning1977b\n%0 Book \n%A Dunning, T. H.\n%A Hay, P. J.\n%T Gaussian Basis Sets\n%Z editors:['Schaefer, H. F.']\n%D 1977\n%R 10.1007/x\n" := by
+  decide +kernel
+
+example : ∀ kv ∈ demoEntry.fields, WellTyped kv := by
+  have h : demoEntry.fields.all wellTypedB = true := by decide +kernel
+  intro kv hkv
+  exact wellTyped_of_B kv (List.all_eq_true.1 h kv hkv)
+
+end Renderers
 
 end BSE.Props.C09
